@@ -628,7 +628,10 @@ func vMakeField(id string, sel int, key string, ref *vRefEnc, cfg *EncoderConfig
 			return Field{Key: key, Type: ErrorType, Interface: e}
 		}
 	case 25: // reflected values
-		switch vrt.Choice(id+".refl", 4) {
+		switch vrt.Choice(id+".refl", 5) {
+		case 4: // strings full of JSON punctuation: a value ending in a backslash followed by one with colons and commas
+			ref.add(key, &vExp{kind: xObj, obj: []vExpMember{{key: []byte("p"), val: xs(`C:\logs\`)}, {key: []byte("u"), val: xs(`http://h:80/a,b "q": {x}`)}}})
+			return Field{Key: key, Type: ReflectType, Interface: map[string]string{"p": `C:\logs\`, "u": `http://h:80/a,b "q": {x}`}}
 		case 0:
 			ref.add(key, &vExp{kind: xNull})
 			return Field{Key: key, Type: ReflectType, Interface: nil}
